@@ -112,7 +112,7 @@ def plan_for(prop, tier):
             rule="cases: a base image (598 shipped files, synthetic well-formed recipes, synthetic self-consistent out-of-spec recipes) with 0-3 storage faults "
                  "(trunc, flip, set, zero/ff runs, splice, dup/drop block, header-count / type-index / abbr-index / utoff / isdst / 8-byte-time edits, version, footer from the POSIX-TZ grammar "
                  "or a near miss) and stream faults (eio@k, short@k, three Skip behaviours); part 'sweep' enumerates trunc@k and eio@k for every k of a panel of bases, part 'flips' every single-bit flip "
-                 "up to the end of the tables. Non-trivial iff the bytes differ from the base or a stream fault fired (out-of-spec recipes always count); distinct = distinct (faulted bytes, stream faults) hashes",
+                 "of the whole file (headers, both blocks, indicator bytes, footer). Non-trivial iff the bytes differ from the base or a stream fault fired (out-of-spec recipes always count); distinct = distinct (faulted bytes, stream faults) hashes",
             stages=[
                 dict(kind="worker", name="asan-random", variant="asan", part="", runs=100000 if q else 3000000, block=1000, hash_mod=50, key_mod=1 if q else 16),
                 dict(kind="worker", name="asan-sweep-trunc-eio", variant="asan", part="sweep", runs=-1, block=500, hash_mod=50, key_mod=1),
